@@ -27,8 +27,10 @@ def run_case(case):
         rig.peer.faults_h2n = list(fh2n)
         rig.peer.faults_n2h = list(fn2h)
         rig.peer.ezsp.stack_type = 2 if (len(fh2n) + win) % 2 else 4
-        ezsp = await rig.connect((boot, 0x0B) if boot != "none" else None)
-        if boot not in ("none", "early"):
+        if boot == "deaf":
+            rig.peer.ignore_rst = 1          # the first RST goes unanswered: that start-up ends in the reset timeout, the retry must work
+        ezsp = await rig.connect((boot, 0x0B) if boot not in ("none", "deaf") else None)
+        if boot not in ("none", "early", "deaf"):
             loop.call_later((0.3 if boot.startswith("inwindow") else 1.2) - 0.0001, rig.note, {"o": "ncpreset"})
 
         async def stage(name, coro):
@@ -48,6 +50,8 @@ def run_case(case):
             return exc == ""
         import bellows.types as t_
         ok = await stage("startup", ezsp.startup_reset())
+        if boot == "deaf" and not ok:
+            ok = await stage("startup", ezsp.startup_reset())      # the caller tries again on the same EZSP object
         if ok:
             ok = await stage("config", ezsp.write_config({}))
         # "formats every frame for that version": besides raw commands, the composite operations the application reaches through the
@@ -150,7 +154,7 @@ def run(ctx: Ctx):
     scheds = fault_schedules(ctx.quick, rng)
     cases = []
     for ver in VERSIONS:
-        for path, boots in (("/dev/ttyFAKE0", ("none", "inwindowgap")), ("socket://10.0.0.1:6638", ("none", "early", "inwindow", "late", "lategap"))):
+        for path, boots in (("/dev/ttyFAKE0", ("none", "inwindowgap", "deaf")), ("socket://10.0.0.1:6638", ("none", "early", "inwindow", "late", "lategap"))):
             for boot in boots:
                 for i, (a, b) in enumerate(scheds):
                     if ctx.quick and i > 0 and (i + ver) % 3:
